@@ -194,4 +194,17 @@ PROPS["C11"] = {
     "assumptions": ["interleavings are at the granularity of the yield points (appendix A.2); finer-grained races are the race detector's (C18)"],
 }
 
+PROPS["C15"] = {
+    "parts": [{"name": "seq", "pkg": "c15", "chk": "chk_c15", "args": ["seq"]},
+              {"name": "race", "pkg": "c15", "chk": "chk_c15_race", "args": ["race"]}],
+    "reasons": {"seq": {"1": "an update was delivered although the contract equals the last delivered one, or a changed contract / the first success was not delivered",
+                        "2": "a failed poll did not (only) report an error"},
+                "race": {"3": "a resolve-now request issued after a change while a poll was in progress was lost", "4": "a callback happened after Close had returned"}},
+    "rule": "seq: histories of 1-6 polls over a scripted reflection server whose contract (descriptor bytes and/or service list) changes between polls (4 versions), with protocol-version availability {both, v1 only, v1alpha only, neither}, failures at every protocol step (stream open, ListServices, k-th file response; error or timeout), 5 answering policies; polls driven by PollManually + ResolveNow; the flat callback sequence is compared. race: ResolveNow issued during a poll held open by gating the fake stream; Close during an in-flight poll. non-trivial = history with >= 3 polls",
+    "level_text": "Coq theorems over ALL histories of poll outcomes: the callback sequence is exactly - an update after the first success and after each success whose contract differs from the LAST DELIVERED one, an error (only) after each failure, nothing otherwise; the remembered fingerprint changes only together with an update (so a failure never loses or fakes a change); the result does not depend on the remembered protocol-version priority. Races: checked against the real resolver by gating (harness); the wake-up protocol is argued in DESIGN, not proved.",
+    "level_note": "Trusted: Coq kernel, extraction, modelrun, Go harness (scripted reflection server, quiescence detection). Assumed: equal SHA-256 fingerprints mean equal contracts (fp_faithful); the poll timer is not modelled.",
+    "design_ref": "DESIGN.md §3 C15",
+    "assumptions": ["fp_faithful (SHA-256 collision-freeness and unambiguous concatenation)", "ResolveNow/Close race statements are validated by gated runs, not proved in Coq"],
+}
+
 NOT_APPLICABLE = {}
